@@ -62,7 +62,9 @@ pub struct World {
     pub wait_started: Option<u64>,
     pub next_part: u64,
     pub restart_aid: Option<String>,
-    pub init_snap: Option<(u64, u32)>,   // (min expiry of the htlcs held, height) when the payment was initiated
+    pub init_snap: Option<(u64, u32)>,
+    pub other: Option<(String, Vec<u8>, String)>,   // a second payment hash frozen at its first RPC: (hash hex, hash, invoice)
+    pub other_call: Option<tokio::task::JoinHandle<Result<HtlcAcceptedResponse, ()>>>,   // (min expiry of the htlcs held, height) when the payment was initiated
 }
 
 fn state_key(hash_hex: &str) -> Vec<String> { vec!["trampoline".into(), "payments".into(), hash_hex.into(), "state".into()] }
@@ -76,7 +78,7 @@ impl World {
         { let mut n = node.lock().unwrap(); n.height = 1000; n.node_id = pubkey(LOCAL).to_string(); }
         World { node, hash_hex: hash.to_string(), hash: hash.to_byte_array().to_vec(),
             inv_fixed: make_invoice(&pre, Some(1_000_000), 0, 2), inv_open: make_invoice(&pre, None, 0, 2), open, inv_amount: 1_000_000, cfg,
-            calls: vec![], aids: vec![], acts: vec![], obs: vec![], life: 0, fault_read: false, lost_write: false, fault_kind: String::new(), height: 1000, model_wall: 0, stamp: BTreeMap::new(), mono: 0, wait_started: None, next_part: 1, restart_aid: None, init_snap: None }
+            calls: vec![], aids: vec![], acts: vec![], obs: vec![], life: 0, fault_read: false, lost_write: false, fault_kind: String::new(), height: 1000, model_wall: 0, stamp: BTreeMap::new(), mono: 0, wait_started: None, next_part: 1, restart_aid: None, init_snap: None, other: None, other_call: None }
     }
     fn aid_canon(&mut self, aid: &str) -> usize {
         if let Some(p) = self.aids.iter().position(|a| a == aid) { return p + 1; }
@@ -117,7 +119,10 @@ fn req_token(w: &mut World, method: &str, params: &Value) -> String {
 /// parked requests (not getinfo) as (index in parked, token with ordinal)
 fn parked_tokens(w: &mut World) -> Vec<(usize, String, bool)> {
     node::reap(&w.node);
-    let snapshot: Vec<(usize, String, Value, bool)> = { let n = w.node.lock().unwrap(); n.parked.iter().enumerate().filter(|(_, p)| p.method != "getinfo").map(|(i, p)| (i, p.method.clone(), p.params.clone(), p.served.is_some())).collect() };
+    let other_hex = w.other.as_ref().map(|o| o.0.clone());
+    let snapshot: Vec<(usize, String, Value, bool)> = { let n = w.node.lock().unwrap(); n.parked.iter().enumerate().filter(|(_, p)| p.method != "getinfo")
+        .filter(|(_, p)| other_hex.as_ref().map(|h| !p.params.to_string().contains(h.as_str())).unwrap_or(true))
+        .map(|(i, p)| (i, p.method.clone(), p.params.clone(), p.served.is_some())).collect() };
     let mut seen: BTreeMap<String, u32> = BTreeMap::new();
     let mut out = Vec::new();
     for (i, m, p, served) in snapshot {
@@ -392,7 +397,7 @@ fn would_succeed(w: &mut World, tok: &str) -> bool {
     }
 }
 
-pub struct Gen { pub faults_w: bool, pub faults_r: bool, pub crashes: bool, pub lost: bool, pub replay: bool, pub coop: Option<bool> }
+pub struct Gen { pub faults_w: bool, pub faults_r: bool, pub crashes: bool, pub lost: bool, pub replay: bool, pub coop: Option<bool>, pub other: bool }
 
 /// enabled actions of the real system, with multiplicity as weight
 pub fn candidates(w: &mut World, rng: &mut Rng, g: &Gen, step: usize) -> Vec<String> {
@@ -463,6 +468,11 @@ enum Phase { Random, Drain, Probe(u8), Done }
 /// injected (C09: it must settle, at the latest at the second attempt).
 pub fn run_case(ctx: &mut Ctx, rng: &mut Rng, sock: &str, open: bool, cfg: SCfg, script: Vec<String>, len: usize, g: &Gen) -> Vec<String> {
     let mut w = World::new(0, open, cfg);
+    if g.other {
+        let pre_b = node::preimage_bytes(78);
+        let hb = sha256::Hash::hash(&pre_b);
+        w.other = Some((hb.to_string(), hb.to_byte_array().to_vec(), make_invoice(&pre_b, Some(1_000_000), 0, 2)));
+    }
     let mut script: std::collections::VecDeque<String> = script.into();
     let replaying = g.replay;
     let mut step = 0usize;
@@ -474,6 +484,18 @@ pub fn run_case(ctx: &mut Ctx, rng: &mut Rng, sock: &str, open: bool, cfg: SCfg,
         let crashed = rt.block_on(async {
             let p = boot(&w, sock).await;
             let mut pay_seen: Vec<u64> = Vec::new();
+            if let Some((_, oh, oinv)) = w.other.clone() {
+                // hash B: a fully funded trampoline HTLC whose very first RPC is never answered
+                let md: Vec<Rec> = vec![(33001, oinv.clone().into_bytes())];
+                let payload: Vec<Rec> = vec![(16, ref_encode(&md))];
+                let req = HtlcAcceptedRequest {
+                    onion: Onion { payload: stream_of(&payload), short_channel_id: None, forward_msat: Some(1_006_000), total_msat: Some(1_006_000) },
+                    htlc: Htlc { short_channel_id: "4x5x6".parse().unwrap(), id: 999, amount_msat: 1_006_000, cltv_expiry: w.height + 400, cltv_expiry_relative: 400, payment_hash: oh },
+                };
+                let m = p.mgr.clone();
+                w.other_call = Some(tokio::spawn(async move { AssertUnwindSafe(m.handle_htlc(&req)).catch_unwind().await.map_err(|_| ()) }));
+                settle(&w.node).await;
+            }
             if w.life == 0 { let o = observe(&mut w, ctx, &mut pay_seen, "boot").await; w.obs.push(o); }
             loop {
                 let act = if let Some(a) = script.pop_front() { a } else if replaying { return false; } else {
@@ -546,6 +568,15 @@ pub fn run_case(ctx: &mut Ctx, rng: &mut Rng, sock: &str, open: bool, cfg: SCfg,
         w.obs.push("out=[] resp=[] pay=[]".into());
         ctx.count("crashes");
     }
+    if let Some((oh, _, _)) = w.other.clone() {
+        ctx.count("case:with-frozen-other-hash");
+        // the frozen hash must have issued exactly its own state lookup and nothing else, and must still be held
+        let n = w.node.lock().unwrap();
+        let mine: Vec<String> = n.log.iter().filter(|l| l.contains(oh.as_str())).cloned().collect();
+        if mine.iter().any(|l| !l.starts_with("listdatastore")) { ctx.violation("C14", "other-hash-progressed", &format!("the frozen hash issued {:?} although its first RPC was never answered REPLAY[{}]", mine, replay(&w))); }
+        let state_b = n.ds.keys().any(|k| k.iter().any(|x| x == &oh));
+        if state_b { ctx.violation("C14", "other-hash-stored", &format!("datastore holds entries of the frozen hash REPLAY[{}]", replay(&w))); }
+    }
     let line = format!("sy {} {}", header(&w), if w.acts.is_empty() { "-".to_string() } else { w.acts.join(" ") });
     let paid = w.obs.iter().any(|o| !o.ends_with("pay=[]"));
     ctx.case(&line, &w.obs.join(" | "), paid || w.life > 0);
@@ -562,7 +593,7 @@ fn enumerate_faults(ctx: &mut Ctx, rng: &mut Rng, sock: &str, lost: bool) {
         for open in [false, true] {
             let nd = 1_006_000u64;
             let first = format!("ar:0:1000000:{}:1400:300:{}", nd, nd);
-            let g0 = Gen { faults_w: false, faults_r: false, crashes: false, lost: false, replay: false, coop: Some(complete) };
+            let g0 = Gen { faults_w: false, faults_r: false, crashes: false, lost: false, replay: false, coop: Some(complete), other: false };
             let base = run_case(ctx, rng, sock, open, default_cfg(), vec![first.clone()], 60, &g0);
             // the cooperative part ends where the drain would start: keep the prefix up to the first probe arrival
             let end = base.iter().skip(1).position(|a| a.starts_with("ar:")).map(|p| p + 1).unwrap_or(base.len());
@@ -570,18 +601,18 @@ fn enumerate_faults(ctx: &mut Ctx, rng: &mut Rng, sock: &str, lost: bool) {
             for k in 1..=base.len() {
                 // crash after the k-th action
                 let mut sc: Vec<String> = base[..k].to_vec(); sc.push("cr".into());
-                let g = Gen { faults_w: false, faults_r: false, crashes: false, lost: false, replay: false, coop: None };
+                let g = Gen { faults_w: false, faults_r: false, crashes: false, lost: false, replay: false, coop: None, other: false };
                 run_case(ctx, rng, sock, open, default_cfg(), sc, 0, &g); ctx.count("enum:crash-point");
                 // the k-th action, if it serves a write, with each fault
                 if k < base.len() { if let Some(tok) = base[k].strip_prefix("s:") { if tok.starts_with("ws") || tok.starts_with("wa") {
                     let kinds: &[&str] = if lost { &["fL"] } else { &["fR", "fA"] };
                     for f in kinds {
                         let mut sc: Vec<String> = base[..k].to_vec(); sc.push(format!("{}:{}", f, tok));
-                        let g = Gen { faults_w: false, faults_r: false, crashes: false, lost, replay: false, coop: Some(complete) };
+                        let g = Gen { faults_w: false, faults_r: false, crashes: false, lost, replay: false, coop: Some(complete), other: false };
                         run_case(ctx, rng, sock, open, default_cfg(), sc.clone(), 80, &g); ctx.count("enum:write-fault");
                         // … and a crash right after the faulty write
                         sc.push(format!("d:{}", tok)); sc.push("cr".into());
-                        let g = Gen { faults_w: false, faults_r: false, crashes: false, lost, replay: false, coop: None };
+                        let g = Gen { faults_w: false, faults_r: false, crashes: false, lost, replay: false, coop: None, other: false };
                         run_case(ctx, rng, sock, open, default_cfg(), sc, 0, &g); ctx.count("enum:write-fault-then-crash");
                     }
                 } } }
@@ -595,13 +626,13 @@ pub fn run(mut ctx: Ctx) {
     let sock = format!("{}/system.sock", ctx.dir);
     if let Some(path) = ctx.replay.clone() {
         for line in std::fs::read_to_string(path).expect("replay").lines() {
-            if let Some((cfg, open, script)) = parse_line(line) { let l = script.len(); run_case(&mut ctx, &mut rng, &sock, open, cfg, script, l, &Gen { faults_w: false, faults_r: false, crashes: false, lost: false, replay: true, coop: None }); }
+            if let Some((cfg, open, script)) = parse_line(line) { let l = script.len(); run_case(&mut ctx, &mut rng, &sock, open, cfg, script, l, &Gen { faults_w: false, faults_r: false, crashes: false, lost: false, replay: true, coop: None, other: false }); }
         }
         ctx.finish("replay", "");
         return;
     }
     if let Ok(c) = std::fs::read_to_string("/verif/corpus/system/cases.txt") {
-        for line in c.lines() { if let Some((cfg, open, script)) = parse_line(line) { let l = script.len(); run_case(&mut ctx, &mut rng, &sock, open, cfg, script, l, &Gen { faults_w: false, faults_r: false, crashes: false, lost: false, replay: false, coop: None }); ctx.count("corpus"); } }
+        for line in c.lines() { if let Some((cfg, open, script)) = parse_line(line) { let l = script.len(); run_case(&mut ctx, &mut rng, &sock, open, cfg, script, l, &Gen { faults_w: false, faults_r: false, crashes: false, lost: false, replay: false, coop: None, other: false }); ctx.count("corpus"); } }
     }
     enumerate_faults(&mut ctx, &mut rng, &sock, false);
     if ctx.thorough { enumerate_faults(&mut ctx, &mut rng, &sock, true); }
@@ -610,7 +641,7 @@ pub fn run(mut ctx: Ctx) {
         let open = i % 4 == 3;
         let mut cfg = default_cfg();
         if i % 9 == 8 { cfg.mpp = *rng.pick(&[0u64, 1, 30]); }
-        let g = Gen { faults_w: i % 3 == 1, faults_r: ctx.thorough && i % 10 == 9, crashes: i % 2 == 1, lost: ctx.thorough && i % 17 == 16, replay: false, coop: None };
+        let g = Gen { faults_w: i % 3 == 1, faults_r: ctx.thorough && i % 10 == 9, crashes: i % 2 == 1, lost: ctx.thorough && i % 17 == 16, replay: false, coop: None, other: i % 4 == 2 };
         let len = 25 + rng.below(40) as usize;
         run_case(&mut ctx, &mut rng, &sock, open, cfg, vec![], len, &g);
     }
